@@ -53,6 +53,25 @@ def generate(rng: random.Random, tier: str):
         for nm in masks_for(rng, 4):
             for em in masks_for(rng, 4):
                 yield {"kind": "build", "fmt": fmt, "nn": None, "en": None, "nm": nm, "em": em, "validate": True, **g}
+    # the same fixed graph laid out by the INDEPENDENT writer of C02 (harness/c02.py: zarr API only) with the var-length data sections in
+    # reversed / shuffled order, other chunking, no compression, all-false masks present: a masked read must not depend on the order in
+    # which the library's own writer lays the sections out (audit item 16)
+    for fmt in (2, 3):
+        for dl in (1, 2):
+            v = {"fmt": fmt, "chunk": 1, "compress": False, "allfalse": True, "emptyprops": False, "minimal_md": True, "shuffle": 7 + dl,
+                 "bigendian": False, "dlayout": dl}
+            for nm in masks_for(rng, 4):
+                for em in (None, [True, False, True, True], [False, True, True, False]):
+                    yield {"kind": "build", "fmt": fmt, "nn": None, "en": None, "nm": nm, "em": em, "validate": True, "indep": v, **g}
+    for i in range(20 if tier == "quick" else 250):
+        gr = gg.rand_graph(rng, axes=False)
+        n, e = gr["nids"]["shape"][0], gr["eids"]["shape"][0]
+        v = {"fmt": rng.choice([2, 3]), "chunk": rng.choice([1, 2, None]), "compress": rng.random() < 0.5, "allfalse": rng.random() < 0.5,
+             "emptyprops": rng.random() < 0.5, "minimal_md": rng.random() < 0.5, "shuffle": rng.randint(0, 1000), "bigendian": False,
+             "dlayout": rng.choice([1, 2])}
+        for nm in masks_for(rng, n, 2, 2)[:4]:
+            em = rng.choice(masks_for(rng, e, 2, 2))
+            yield {"kind": "build", "fmt": v["fmt"], "nn": None, "en": None, "nm": nm, "em": em, "validate": True, "indep": v, **gr}
     # larger graphs with sparse ids (track-style ids 1000*t + label): node masks that drop nodes of degree >= 2
     for i in range(10 if tier == "quick" else 120):
         yield lineage_case(rng)
@@ -110,9 +129,18 @@ def run_impl(c):
     from geff.core_io import read_to_memory, write_arrays
 
     it = Interner()
-    st = MemoryStore()
-    write_arrays(st, gg.to_np(c["nids"]), gg.props_to_np(c["nprops"]), gg.to_np(c["eids"]), gg.props_to_np(c["eprops"]),
-                 gg.make_metadata({k: v for k, v in c["md"].items() if v is not None}), zarr_format=c["fmt"])
+    if c.get("indep"):
+        from harness import c02
+
+        try:
+            st = c02.independent_store({"variant": c["indep"], "nids": c["nids"], "eids": c["eids"], "nprops": c["nprops"],
+                                        "eprops": c["eprops"], "md": c["md"]})[0]
+        except Exception as e:
+            raise HarnessError(f"independent writer failed: {type(e).__name__}: {e}")
+    else:
+        st = MemoryStore()
+        write_arrays(st, gg.to_np(c["nids"]), gg.props_to_np(c["nprops"]), gg.to_np(c["eids"]), gg.props_to_np(c["eprops"]),
+                     gg.make_metadata({k: v for k, v in c["md"].items() if v is not None}), zarr_format=c["fmt"])
     tree = dump_tree(st, it)
     obs = {}
     nm = None if c["nm"] is None else np.array(c["nm"], dtype=bool)
@@ -202,7 +230,7 @@ def nontrivial(c, o):
 def describe(c, o):
     def mk(m):
         return "None" if m is None else f"{sum(m)}/{len(m)}"
-    return f"v{c['fmt']}:N={c['nids']['shape'][0]}:E={c['eids']['shape'][0]}:nm={mk(c['nm'])}:em={mk(c['em'])}:nn={'all' if c['nn'] is None else len(c['nn'])}:{o['res'][0]}"
+    return f"{'indep-dl%d:' % c['indep']['dlayout'] if c.get('indep') else ''}v{c['fmt']}:N={c['nids']['shape'][0]}:E={c['eids']['shape'][0]}:nm={mk(c['nm'])}:em={mk(c['em'])}:nn={'all' if c['nn'] is None else len(c['nn'])}:{o['res'][0]}"
 
 
 # =====================================================================================================
